@@ -766,9 +766,23 @@ def luhn_shape(stmts, num):
         return None
     seqs = []
 
+    def as_terms(e):
+        """[E(v) for v in SEQ[k::2]] (possibly inside list()/tuple()): the terms of one parity, not yet summed"""
+        if isinstance(e, ast.Call) and src(e.func) in ('tuple', 'list') and len(e.args) == 1:
+            e = e.args[0]
+        if isinstance(e, (ast.GeneratorExp, ast.ListComp)) and len(e.generators) == 1 and not e.generators[0].ifs and isinstance(e.generators[0].target, ast.Name):
+            k = parity(e.generators[0].iter)
+            if k is not None:
+                return ('terms', k, e.generators[0].target.id, e.elt)
+        return None
+
     def sym(e):
         if isinstance(e, ast.Name) and isinstance(env.get(e.id), tuple) and env[e.id][0] in ('sum', 'mod'):
             return env[e.id]
+        if isinstance(e, ast.Call) and src(e.func) == 'sum' and len(e.args) == 1 and isinstance(e.args[0], ast.Name) \
+                and isinstance(env.get(e.args[0].id), tuple) and env[e.args[0].id][0] == 'terms':
+            _t, k, var, expr = env[e.args[0].id]
+            return ('sum', [(var, expr)], []) if k == 0 else ('sum', [], [(var, expr)])
         if isinstance(e, ast.Call) and src(e.func) == 'sum' and len(e.args) == 1:
             a = e.args[0]
             k = parity(a)
@@ -800,6 +814,10 @@ def luhn_shape(stmts, num):
             sv = sym(st.value)
             if sv is not None:
                 env[t] = sv
+                continue
+            tv = as_terms(st.value)
+            if tv is not None:
+                env[t] = tv
                 continue
             if any(isinstance(x, ast.Name) and isinstance(env.get(x.id), tuple) for x in ast.walk(st.value)):
                 return None
